@@ -27,7 +27,7 @@
    every True (schedules), for all heap tie-break hints.  PossibleEdits delegates bounds()/tighten_bounds() to its search;
    the pruning of invalid alternatives in its `valid` property is not modelled (validated by trace only). *)
 From Coq Require Import ZArith List Bool.
-Require Import GT.Data GT.EdEngine GT.ScriptModel GT.MachineSpec GT.MachineGuardSpec GT.MachineModel GT.MachineCore GT.MachineColl
+Require Import GT.Data GT.EdEngine GT.ScriptModel GT.MachineSpec GT.MachineGuardSpec GT.MachineModel GT.MachinePlist GT.MachineCore GT.MachineColl
                GT.MachineMatch GT.MachineProofs GT.MachineGuard.
 Import ListNotations.
 Open Scope Z_scope.
@@ -159,6 +159,14 @@ Theorem C04_guard_refuted :
   (forall orc, initO orc ex_guard_a ex_guard_b = None).
 Proof. exact guard_refuted. Qed.
 
+(* Apple plist documents: PLISTNode(a).edits(PLISTNode(b)) is an EditCollection over [Match(self, node, 0); a.edits(b)] with
+   cost_upper_bound = size a + 1 + size b.  initP (MachinePlist.v) = the collection machine over [SConst 0; initO orc a b]
+   when the root pair is in the domain of initO and the root edit's initial upper bound fits cost_upper_bound. *)
+Theorem C04_plist_root : forall orc a b s, initP orc a b = Some s ->
+  Contract (UM (sheight s)) s /\
+  holds_events (trace_of (UM (sheight s)) (S (S (Z.to_nat (width (bndU s))))) s) = true.
+Proof. exact plist_root_contract. Qed.
+
 (* IterativeTighteningSearch as a machine: bounds() = sbounds s m, tighten_bounds() = search_tighten fuel s m.
    search_step_ok V Inv measure s m r s' m'  (MachineSearch.v) =  Inv s' m'  /\  contains (sbounds s m) (sbounds s' m')
    /\  lo (sbounds s m) <= V <= hi (sbounds s m)  /\  (r = true -> sbounds s' m' <> sbounds s m)
@@ -200,3 +208,4 @@ Print Assumptions C04_guard_bound_default_lists.
 Print Assumptions C04_docs_none.
 Print Assumptions C04_guard_refuted.
 Print Assumptions C04_search.
+Print Assumptions C04_plist_root.
